@@ -454,7 +454,10 @@ def finish(run, flagged, level="model_checking", rule_text="", technique_note=""
     confirmed = []
     seen_sig = set()
     for (ev, rules) in flagged:
-        sig = (tuple(sorted(rules)), json.dumps(ev.get("case"), sort_keys=True, ensure_ascii=False))
+        cc = ev.get("case") or {}
+        if "orig" in cc:
+            cc = {k: v for k, v in cc.items() if k not in ("orig", "step", "hist")}
+        sig = (tuple(sorted(rules)), json.dumps(cc, sort_keys=True, ensure_ascii=False))
         if sig in seen_sig:
             continue
         seen_sig.add(sig)
@@ -462,7 +465,11 @@ def finish(run, flagged, level="model_checking", rule_text="", technique_note=""
     out_viol = 0
     if os.environ.get("VERIF_DEBUG"):
         import collections
-        cnt = collections.Counter((tuple(r), ev.get("site", ""), str(ev.get("panic", ""))[:80]) for ev, r in confirmed)
+        with open(os.path.join(SCRATCH_ROOT, "flagged-%s.ndjson" % prop), "w", encoding="utf-8") as dbg:
+            for ev, r in confirmed:
+                dbg.write(json.dumps({"rules": r, "ev": ev}, ensure_ascii=False) + "\n")
+        cnt = collections.Counter((tuple(r), ev.get("site", ""), str(ev.get("panic", ""))[:80],
+                                   " ".join((ev.get("case") or {}).get("args", [])[:1])) for ev, r in confirmed)
         for k, v in cnt.most_common(40):
             log("  summary", v, k)
     os.makedirs(os.path.join(VERIF, "replays"), exist_ok=True)
